@@ -28,7 +28,7 @@ type Engine struct {
 	spkgs      map[string]*ssa.Package
 	contracts  map[string]*PkgContracts // by package path
 	funcByKey  map[string]*ssa.Function // pkgpath + " " + relstring
-	noSafety   bool
+	sweepMode  bool
 	lockChecks bool
 	srcCache   map[string][]string
 	srcMu      sync.Mutex
@@ -37,6 +37,9 @@ type Engine struct {
 	allFuncs   map[*ssa.Function]bool
 	globalInit map[*ssa.Global]*ssa.Function
 	implCache  map[string][]*ssa.Function
+	dynCache   map[string]*ModSet
+	modsDone   bool
+	sigCache   map[string][]*ssa.Function
 	loadErrs   []string
 }
 
@@ -58,7 +61,7 @@ func LoadEngine(repo string) (*Engine, error) {
 		return nil, err
 	}
 	e := &Engine{repo: repo, pkgs: pkgs, spkgs: map[string]*ssa.Package{}, contracts: map[string]*PkgContracts{}, funcByKey: map[string]*ssa.Function{},
-		srcCache: map[string][]string{}, modsets: map[*ssa.Function]*ModSet{}, globalInit: map[*ssa.Global]*ssa.Function{}, implCache: map[string][]*ssa.Function{}, lockChecks: true}
+		srcCache: map[string][]string{}, modsets: map[*ssa.Function]*ModSet{}, globalInit: map[*ssa.Global]*ssa.Function{}, implCache: map[string][]*ssa.Function{}, dynCache: map[string]*ModSet{}, sigCache: map[string][]*ssa.Function{}, lockChecks: true}
 	for _, p := range pkgs {
 		for _, er := range p.Errors {
 			e.loadErrs = append(e.loadErrs, er.Error())
@@ -221,27 +224,94 @@ func (e *Engine) findDefine(p *ssa.Package, name string) *Define {
 func (e *Engine) modSetOf(f *ssa.Function) *ModSet {
 	e.modMu.Lock()
 	defer e.modMu.Unlock()
-	return e.modSetRec(f, map[*ssa.Function]bool{})
-}
-
-func (e *Engine) modSetRec(f *ssa.Function, visiting map[*ssa.Function]bool) *ModSet {
+	e.ensureModSets()
 	if ms, ok := e.modsets[f]; ok {
 		return ms
 	}
-	if visiting[f] {
-		return &ModSet{Names: map[string]Sort{}}
+	return newModSet()
+}
+
+// ensureModSets computes, once, the transitive write sets of all in-module
+// functions as a fixpoint over the call graph (static calls, CHA for
+// interface calls, signature matching for calls through function values).
+func (e *Engine) ensureModSets() {
+	if e.modsDone {
+		return
 	}
-	visiting[f] = true
+	e.modsDone = true
+	local := map[*ssa.Function]*ModSet{}
+	edges := map[*ssa.Function]map[*ssa.Function]bool{}
+	var fns []*ssa.Function
+	for f := range e.allFuncs {
+		if e.inModule(f) && len(f.Blocks) > 0 {
+			fns = append(fns, f)
+		}
+	}
+	sort.Slice(fns, func(i, j int) bool { return fns[i].String() < fns[j].String() })
+	for _, f := range fns {
+		ms, ed := e.localModSet(f)
+		local[f] = ms
+		edges[f] = ed
+		full := newModSet()
+		full.All = ms.All
+		full.merge(ms)
+		e.modsets[f] = full
+	}
+	for changed := true; changed; {
+		changed = false
+		for _, f := range fns {
+			full := e.modsets[f]
+			for g := range edges[f] {
+				o := e.modsets[g]
+				if o == nil {
+					continue
+				}
+				if o.All && !full.All {
+					full.All = true
+					changed = true
+				}
+				for k, v := range o.Names {
+					if _, ok := full.Names[k]; !ok {
+						full.Names[k] = v
+						full.Types[k] = o.Types[k]
+						changed = true
+					}
+					if o.NonFresh[k] && !full.NonFresh[k] {
+						full.NonFresh[k] = true
+						changed = true
+					}
+				}
+			}
+		}
+	}
+}
+
+func (e *Engine) funcsOfType(sig *types.Signature) []*ssa.Function {
+	key := types.TypeString(sig, nil)
+	if fs, ok := e.sigCache[key]; ok {
+		return fs
+	}
+	want := types.NewSignatureType(nil, nil, nil, sig.Params(), sig.Results(), sig.Variadic())
+	var out []*ssa.Function
+	for f := range e.allFuncs {
+		if !e.inModule(f) || len(f.Blocks) == 0 || f.Signature.Recv() != nil {
+			continue
+		}
+		fs := f.Signature
+		if types.Identical(types.NewSignatureType(nil, nil, nil, fs.Params(), fs.Results(), fs.Variadic()), want) {
+			out = append(out, f)
+		}
+	}
+	sort.Slice(out, func(i, j int) bool { return out[i].String() < out[j].String() })
+	e.sigCache[key] = out
+	return out
+}
+
+// localModSet: heaps written by f's own instructions, and its call edges.
+func (e *Engine) localModSet(f *ssa.Function) (*ModSet, map[*ssa.Function]bool) {
 	U := NewUniverse()
-	ms := &ModSet{Names: map[string]Sort{}}
-	add := func(o *ModSet) {
-		if o.All {
-			ms.All = true
-		}
-		for k, v := range o.Names {
-			ms.Names[k] = v
-		}
-	}
+	ms := newModSet()
+	edges := map[*ssa.Function]bool{}
 	var addStructFields func(t types.Type)
 	addStructFields = func(t types.Type) {
 		st := t.Underlying().(*types.Struct)
@@ -251,11 +321,31 @@ func (e *Engine) modSetRec(f *ssa.Function, visiting map[*ssa.Function]bool) *Mo
 				addStructFields(ft)
 				continue
 			}
-			ms.Names[fieldHeapName(t, i)] = arrSort(SInt, U.sortOf(ft))
+			ms.add(fieldHeapName(t, i), arrSort(SInt, U.sortOf(ft)), ft)
 		}
 	}
-	if !e.inModule(f) || len(f.Blocks) == 0 {
-		return ms
+	var addStructFieldsFresh func(t types.Type)
+	addStructFieldsFresh = func(t types.Type) {
+		st := t.Underlying().(*types.Struct)
+		for i := 0; i < st.NumFields(); i++ {
+			ft := st.Field(i).Type()
+			if isStruct(ft) {
+				addStructFieldsFresh(ft)
+				continue
+			}
+			ms.addFresh(fieldHeapName(t, i), arrSort(SInt, U.sortOf(ft)), ft)
+		}
+	}
+	// freshBase: the address is (a field path of) an object allocated in this very function
+	var freshBase func(v ssa.Value) bool
+	freshBase = func(v ssa.Value) bool {
+		switch x := v.(type) {
+		case *ssa.Alloc:
+			return true
+		case *ssa.FieldAddr:
+			return freshBase(x.X)
+		}
+		return false
 	}
 	for _, b := range f.Blocks {
 		for _, in := range b.Instrs {
@@ -266,31 +356,37 @@ func (e *Engine) modSetRec(f *ssa.Function, visiting map[*ssa.Function]bool) *Mo
 				case *ssa.FieldAddr:
 					st := deref(a.X.Type())
 					ft := st.Underlying().(*types.Struct).Field(a.Field).Type()
-					if isStruct(ft) {
+					if freshBase(a.X) {
+						if isStruct(ft) {
+							addStructFieldsFresh(ft)
+						} else {
+							ms.addFresh(fieldHeapName(st, a.Field), arrSort(SInt, U.sortOf(ft)), ft)
+						}
+					} else if isStruct(ft) {
 						addStructFields(ft)
 					} else {
-						ms.Names[fieldHeapName(st, a.Field)] = arrSort(SInt, U.sortOf(ft))
+						ms.add(fieldHeapName(st, a.Field), arrSort(SInt, U.sortOf(ft)), ft)
 					}
 				case *ssa.IndexAddr:
-					es := U.sortOf(elem)
-					ms.Names["E|"+es] = arrSort(SInt, arrSort(SInt, es))
+					hn, hs := U.elemHeapT(elem)
+					ms.add(hn, hs, elem)
 				case *ssa.Global:
-					ms.Names["G|"+a.String()] = U.sortOf(elem)
+					ms.add("G|"+a.String(), U.sortOf(elem), elem)
 				case *ssa.Alloc:
 					if a.Heap || isStruct(elem) {
 						if isStruct(elem) {
-							addStructFields(elem)
+							addStructFieldsFresh(elem)
 						} else if !isArray(elem) {
-							es := U.sortOf(elem)
-							ms.Names["P|"+es] = arrSort(SInt, es)
+							hn, hs := U.ptrHeapT(elem)
+							ms.add(hn, hs, elem)
 						}
 					}
 				default:
 					if isStruct(elem) {
 						addStructFields(elem)
 					} else {
-						es := U.sortOf(elem)
-						ms.Names["P|"+es] = arrSort(SInt, es)
+						hn, hs := U.ptrHeapT(elem)
+						ms.add(hn, hs, elem)
 					}
 				}
 			case *ssa.MapUpdate:
@@ -304,8 +400,8 @@ func (e *Engine) modSetRec(f *ssa.Function, visiting map[*ssa.Function]bool) *Mo
 						e.addMapHeaps(ms, U, c.Args[0].Type().Underlying().(*types.Map))
 					case "append", "copy":
 						if sl, ok := c.Args[0].Type().Underlying().(*types.Slice); ok {
-							es := U.sortOf(sl.Elem())
-							ms.Names["E|"+es] = arrSort(SInt, arrSort(SInt, es))
+							hn, hs := U.elemHeapT(sl.Elem())
+							ms.add(hn, hs, sl.Elem())
 						}
 					}
 					continue
@@ -314,55 +410,85 @@ func (e *Engine) modSetRec(f *ssa.Function, visiting map[*ssa.Function]bool) *Mo
 					continue // effects of a spawned goroutine are interference, not part of the call (A7)
 				}
 				if c.IsInvoke() {
-					add(e.invokeModSetRec(c, visiting))
+					for _, g := range e.implementers(c) {
+						edges[g] = true
+					}
 					continue
 				}
 				if callee := c.StaticCallee(); callee != nil {
 					if e.inModule(callee) {
-						add(e.modSetRec(callee, visiting))
+						edges[callee] = true
 					} else {
 						// external: may write through slices / pointers passed
 						for _, a := range c.Args {
 							switch t := a.Type().Underlying().(type) {
 							case *types.Slice:
-								es := U.sortOf(t.Elem())
-								ms.Names["E|"+es] = arrSort(SInt, arrSort(SInt, es))
+								hn, hs := U.elemHeapT(t.Elem())
+								ms.add(hn, hs, t.Elem())
 							case *types.Pointer:
 								if isStruct(t.Elem()) && e.inModuleType(t.Elem()) {
 									addStructFields(t.Elem())
 								} else if !isStruct(t.Elem()) && !isArray(t.Elem()) {
-									es := U.sortOf(t.Elem())
-									ms.Names["P|"+es] = arrSort(SInt, es)
+									hn, hs := U.ptrHeapT(t.Elem())
+									ms.add(hn, hs, t.Elem())
 								}
 							}
 						}
 					}
 					continue
 				}
-				ms.All = true
+				if sig := c.Signature(); sig != nil {
+					for _, g := range e.funcsOfType(sig) {
+						edges[g] = true
+					}
+				} else {
+					ms.All = true
+				}
 			}
 		}
 	}
-	for _, af := range f.AnonFuncs {
-		_ = af // closures are accounted for when called; a closure stored and called later is a dynamic call (All)
+	return ms, edges
+}
+
+// dynamicModSet: union of the mod-sets of all in-module functions of the given type.
+func (e *Engine) dynamicModSet(sig *types.Signature) *ModSet {
+	e.modMu.Lock()
+	defer e.modMu.Unlock()
+	e.ensureModSets()
+	ms := newModSet()
+	for _, g := range e.funcsOfType(sig) {
+		if o := e.modsets[g]; o != nil {
+			if o.All {
+				ms.All = true
+			}
+			ms.merge(o)
+		}
 	}
-	delete(visiting, f)
-	e.modsets[f] = ms
 	return ms
 }
 
 func (e *Engine) addMapHeaps(ms *ModSet, U *Universe, mt *types.Map) {
 	ks, vs := U.sortOf(mt.Key()), U.sortOf(mt.Elem())
-	id := ks + "|" + vs
-	ms.Names["MD|"+id] = arrSort(SInt, arrSort(ks, SBool))
-	ms.Names["MV|"+id] = arrSort(SInt, arrSort(ks, vs))
-	ms.Names["ML|"+id] = arrSort(SInt, SInt)
+	id := typeKey(mt.Key()) + "|" + typeKey(mt.Elem())
+	ms.add("MD|"+id, arrSort(SInt, arrSort(ks, SBool)), mt.Key())
+	ms.add("MV|"+id, arrSort(SInt, arrSort(ks, vs)), mt.Key(), mt.Elem())
+	ms.add("ML|"+id, arrSort(SInt, SInt))
 }
 
 func (e *Engine) invokeModSet(c *ssa.CallCommon) *ModSet {
 	e.modMu.Lock()
 	defer e.modMu.Unlock()
-	return e.invokeModSetRec(c, map[*ssa.Function]bool{})
+	e.ensureModSets()
+	ms := newModSet()
+	for _, g := range e.implementers(c) {
+		if o := e.modsets[g]; o != nil {
+			if o.All {
+				ms.All = true
+			}
+			ms.merge(o)
+		}
+	}
+	return ms
 }
 
 func (e *Engine) implementers(c *ssa.CallCommon) []*ssa.Function {
@@ -403,18 +529,46 @@ func (e *Engine) implementers(c *ssa.CallCommon) []*ssa.Function {
 	return out
 }
 
-func (e *Engine) invokeModSetRec(c *ssa.CallCommon, visiting map[*ssa.Function]bool) *ModSet {
-	ms := &ModSet{Names: map[string]Sort{}}
-	for _, f := range e.implementers(c) {
-		o := e.modSetRec(f, visiting)
-		if o.All {
-			ms.All = true
+
+// LockingFunctions lists every in-module function (closures included) that
+// performs a mutex operation; computed from SSA on each run.
+func (e *Engine) LockingFunctions() []*ssa.Function {
+	var out []*ssa.Function
+	for f := range e.allFuncs {
+		if !e.inModule(f) || len(f.Blocks) == 0 || f.Synthetic != "" {
+			continue
 		}
-		for k, v := range o.Names {
-			ms.Names[k] = v
+		if p := pkgOf(f); p == nil || strings.Contains(p.Pkg.Path(), "/examples/") || strings.HasSuffix(p.Pkg.Path(), "mock") {
+			continue
+		}
+		found := false
+		for _, b := range f.Blocks {
+			for _, in := range b.Instrs {
+				ci, ok := in.(ssa.CallInstruction)
+				if !ok {
+					continue
+				}
+				c := ci.Common()
+				if c.IsInvoke() {
+					if n := ifaceMethodName(c); n == "(sync.Locker).Lock" || n == "(sync.Locker).Unlock" {
+						found = true
+					}
+					continue
+				}
+				if callee := c.StaticCallee(); callee != nil {
+					switch callee.String() {
+					case "(*sync.Mutex).Lock", "(*sync.Mutex).Unlock", "(*sync.RWMutex).Lock", "(*sync.RWMutex).Unlock", "(*sync.RWMutex).RLock", "(*sync.RWMutex).RUnlock", "(*sync.Cond).Wait":
+						found = true
+					}
+				}
+			}
+		}
+		if found {
+			out = append(out, f)
 		}
 	}
-	return ms
+	sort.Slice(out, func(i, j int) bool { return out[i].String() < out[j].String() })
+	return out
 }
 
 // ---------------------------------------------------------------- selection
